@@ -3,7 +3,7 @@
     interpreter (the model of Event.invoke / ProcessContinuation.invoke /
     sim_future.py) for ALL states; the engine-level consequence "a scheduled
     continuation is delivered exactly at its timestamp, once" is C01. *)
-From HS Require Import Base.Prelude Engine.Engine Engine.Script Engine.EngineProofs Engine.ScriptProofs C02.Process.
+From HS Require Import Base.Prelude Engine.Engine Engine.Script Engine.EngineProofs Engine.ScriptProofs C02.Process C02.Combinators.
 Local Open Scope Z_scope.
 
 Theorem c02_yield_resumes_after_delay : forall fuel now e pid p dt effs r c c',
@@ -89,10 +89,11 @@ Theorem c02_double_park_raises : forall now f pid c q,
 Proof. exact double_park_raises. Qed.
 Print Assumptions c02_double_park_raises.
 
-(** any_of / all_of: one-step semantics of their settle callbacks (PARTIAL: the
-    whole-combinator statements "first input to resolve" / "once the last input
-    resolves", for arbitrary nesting, are checked by the correspondence and the
-    implementation-side oracle, not proved). *)
+(** any_of / all_of: one-step semantics of their settle callbacks (PARTIAL as
+    statements about arbitrary NESTING: the whole-combinator theorems below are
+    for composites over plain inputs; nested composites, where two inputs can
+    settle in the same cascade, are checked by the correspondence and the
+    implementation-side oracle). *)
 Theorem c02_any_of_callback_partial : forall rec v c comp idx,
   fire_cb rec v (Some c) (CbAny comp idx) = rec comp (VPair idx v) c.
 Proof. exact any_of_callback_spec. Qed.
@@ -119,3 +120,43 @@ Example c02_example :
   = [UHandle 0 0 0; UResume 0 0 VNone; UHandle 5 0 1;
      UResume 5 0 (VList [VInt 7; VPair 1 (VInt 9)]); UFinish 5 0].
 Proof. vm_compute. reflexivity. Qed.
+
+(** any_of / all_of as WHOLE combinators over plain inputs (each input an
+    unresolved future that is not awaited directly and carries this composite's
+    callback only; the composite has a waiting process and no callbacks of its
+    own, i.e. it is not nested): any_of resumes the waiter exactly once, at the
+    instant the FIRST input resolves, with (index, value) ... *)
+Theorem c02_any_of_first_input : forall fuel now f v c comp idx pid p,
+  f <> comp -> input_of c f (CbAny comp idx) -> waiting_on c comp pid p ->
+  exists c' k, resolve (S (S fuel)) now f v c = Some c' /\
+    ix_new c' = k :: ix_new c /\ ev_time k = now /\ p_kind (ev_pay k) = KCont pid (VPair idx v) /\
+    f_resolved (fget c' comp) = true /\ f_value (fget c' comp) = VPair idx v /\ f_parked (fget c' comp) = None /\
+    f_resolved (fget c' f) = true /\ f_value (fget c' f) = v /\
+    (forall g, g <> f -> g <> comp -> fget c' g = fget c g).
+Proof. exact any_of_first_input. Qed.
+Print Assumptions c02_any_of_first_input.
+
+(** ... every later input is ignored (no event, composite untouched) ... *)
+Theorem c02_any_of_later_ignored : forall fuel now g v c comp j,
+  g <> comp -> input_of c g (CbAny comp j) -> f_resolved (fget c comp) = true ->
+  exists c', resolve (S (S fuel)) now g v c = Some c' /\ ix_new c' = ix_new c /\ fget c' comp = fget c comp /\
+             procs (ix_u c') = procs (ix_u c).
+Proof. exact any_of_later_ignored. Qed.
+Print Assumptions c02_any_of_later_ignored.
+
+(** ... and all_of, for ANY order in which its inputs resolve (each once),
+    resolves exactly at the last of them — one continuation of the waiter, at
+    that instant — with every value at its argument position. *)
+Theorem c02_all_of_any_order : forall fuel now comp pid p l c res,
+  l <> [] ->
+  NoDup (map (fun s => fst (fst s)) l) -> NoDup (map (fun s => Z.to_nat (snd (fst s))) l) ->
+  (forall f idx v, In (f, idx, v) l -> f <> comp /\ input_of c f (CbAll comp idx) /\ 0 <= idx /\ (Z.to_nat idx < length res)%nat) ->
+  waiting_on c comp pid p ->
+  aget ([], 0) comp (alls (ix_u c)) = (res, Z.of_nat (length l)) ->
+  exists c' k res', resolve_all (S (S fuel)) now l c = Some c' /\
+    ix_new c' = k :: ix_new c /\ ev_time k = now /\ p_kind (ev_pay k) = KCont pid (VList res') /\
+    f_resolved (fget c' comp) = true /\ f_value (fget c' comp) = VList res' /\ length res' = length res /\
+    (forall f idx v, In (f, idx, v) l -> nth (Z.to_nat idx) res' VNone = v) /\
+    (forall m, ~ In m (map (fun s => Z.to_nat (snd (fst s))) l) -> nth m res' VNone = nth m res VNone).
+Proof. exact all_of_any_order. Qed.
+Print Assumptions c02_all_of_any_order.
